@@ -216,6 +216,7 @@ def main(mod):
         sys.exit(3)
     # ---- translator validation: same inputs through the native build and the interpreter (concretely)
     nvalid = 0
+    val_cex = []
     val_mismatch = []
     if hasattr(mod, 'validation_calls'):
         calls = mod.validation_calls(env, seed)
@@ -252,6 +253,13 @@ def main(mod):
                     theirs = nr
                 if mine != theirs:
                     native_bad = ('panic' in nr) or nr.get('timeout') or ('ret' in nr and nr['ret'] and nr['ret'][0] not in (0, b'', False))
+                    mine_bad = ('panic' in mine) or mine.get('timeout') or ('ret' in mine and mine['ret'] and mine['ret'][0] not in (0, b'', False))
+                    if native_bad and mine_bad and 'ret' in nr and isinstance(nr['ret'][0], int):
+                        # both the real code and the encoding report a violation on this input, with different codes
+                        # (state kept between calls shows differently in one native process and in fresh symbolic
+                        # states): a counterexample in its own right, replayed and reported like the others
+                        val_cex.append(dict(func=f, args=list(args), kind='ret', code=nr['ret'][0], msg='found by the validation inputs'))
+                        continue
                     if mine == {'ret': [0]} and native_bad:
                         # the real code fails on this input where the encoding (with its environment stubs) does not:
                         # keep going - if the solver jobs find the violation it is reported through them, otherwise
@@ -332,7 +340,7 @@ def main(mod):
     violations = []
     matched = {}
     mismatches = []
-    allcex = [c for r in results for c in r['cex']]
+    allcex = val_cex + [c for r in results for c in r['cex']]
     # replay (bounded number per distinct (func, code))
     seen = Counter()
     replay_dir = os.path.join(os.environ.get('VERIF_REPLAY_DIR') or os.path.join(VERIF, 'replays'), pid)
